@@ -210,6 +210,10 @@ class GwConnError(Exception):
     """stub requests.ConnectionError (registered by RequestsHook through FailSafe.handle_on)."""
 
 
+class OtherHookConnError(Exception):
+    """transport error type of another hook sharing the FailSafe"""
+
+
 class GwConnErrorSub(GwConnError):
     pass
 
@@ -1202,7 +1206,8 @@ def gen_hook_case(rng, length):
                 # of the application call is that of the last leg
                 out = rng.choice(["retry>", "retry>", "retry>retry>"]) + out
             evs.append(["req", url, out])
-    return {"kind": "hook", "env": {ENV_TH: str(th), ENV_CD: str(cd), ENV_BLOCK: "blocked.test"}, "th": th, "cd": cd, "events": evs}
+    return {"kind": "hook", "env": {ENV_TH: str(th), ENV_CD: str(cd), ENV_BLOCK: "blocked.test"}, "th": th, "cd": cd, "events": evs,
+            "second_hook": rng.random() < 0.5}
 
 
 def run_hook_case(repo, case):
@@ -1217,6 +1222,10 @@ def run_hook_case(repo, case):
     fs = boot.pkg._load_fail_safe()
     tf = boot.traffic_filter()
     hook = boot.reqhook.RequestsHook(logger=boot.pkg._LOGGER, fail_safe=fs, traffic_filter=tf, lunar_proxy_configuration=conn)
+    if case.get("second_hook"):
+        # the interceptor gives ONE FailSafe to all its hooks (aiohttp, requests, tornado): a later hook registers
+        # its own transport errors with it; those of the requests hook must stay registered
+        fs.handle_on((OtherHookConnError,))
     request = hook._hook_module()
     session = object()
     CLOCK.t = 1000.0
